@@ -54,7 +54,14 @@ fn child() {
         match ev {
             "new" => {
                 let d = step["d"].as_u64().unwrap();
-                let (c, flag) = RecCollector::new(d, FilterRec::from_json(&step["f"]), log.clone());
+                let (mut c, flag) = RecCollector::new(d, FilterRec::from_json(&step["f"]), log.clone());
+                // a collector that emits an ERROR event at target "a" when it is destroyed (on whichever thread that happens)
+                if step["drop_emit"].as_bool().unwrap_or(false) {
+                    fn on_drop() {
+                        emit_event(1, "a");
+                    }
+                    c.drop_hook = Some(on_drop);
+                }
                 // `static`: a collector that lives for the whole process, installed through Dispatch::from_static
                 if step["static"].as_bool().unwrap_or(false) {
                     let leaked: &'static RecCollector = Box::leak(Box::new(c));
@@ -67,6 +74,10 @@ fn child() {
                     });
                 }
                 flags.insert(d, flag);
+            }
+            // a dispatch value over the no-op collector (Dispatch::none()): usable wherever a Dispatch is, registered nowhere
+            "new_none" => {
+                handles.insert(step["d"].as_u64().unwrap(), Dispatch::none());
             }
             "drop" => {
                 handles.remove(&step["d"].as_u64().unwrap());
@@ -89,7 +100,22 @@ fn child() {
             }
             "unset" => {
                 let t = step["t"].as_u64().unwrap();
-                ws.run(t, |c| drop(c.guards.pop())).unwrap();
+                let n0 = vh_common::rec::DROP_HOOKS.load(Ordering::SeqCst);
+                drain(&log);
+                let r = ws.run(t, |c| drop(c.guards.pop()));
+                if r.is_err() {
+                    o["panic"] = json!(true);
+                }
+                // the scope held the last reference and the collector emitted while it was destroyed: that emission happens
+                // after the scope is closed, on this thread
+                if vh_common::rec::DROP_HOOKS.load(Ordering::SeqCst) > n0 || r.is_err() {
+                    let calls = drain(&log);
+                    let got: Vec<u64> = calls.iter().filter(|c| c["call"] == "event").map(|c| c["col"].as_u64().unwrap()).collect();
+                    o["ml"] = json!(ml());
+                    runner::child_emit(o);
+                    o = json!({"ev": "emit", "t": t, "c": {"lvl": 1, "tgt": "a"}, "k": "event", "via": "drop",
+                        "got": match got.len() { 0 => json!(0), 1 => json!(got[0]), _ => json!(-1) }, "ret": true});
+                }
             }
             // open k scopes inside a closure that panics; the unwinding must restore the default
             "panic_scopes" => {
@@ -159,6 +185,9 @@ fn child() {
                 let tgt = step["c"]["tgt"].as_str().unwrap().to_string();
                 let k = step["k"].as_str().unwrap_or("event").to_string();
                 drain(&log);
+                // `boom`: the receiving collector's callback panics after taking the event; the panic is caught around the
+                // emission (state kept by the dispatcher across the callback must survive the unwinding)
+                vh_common::rec::BOOM.store(step["boom"].as_bool().unwrap_or(false) && k == "event", Ordering::SeqCst);
                 let r = ws.run(t, move |_| match k.as_str() {
                     "event" => {
                         emit_event(lvl, &tgt);
@@ -170,6 +199,7 @@ fn child() {
                     }
                     _ => json!(probe(lvl, &tgt)),
                 });
+                vh_common::rec::BOOM.store(false, Ordering::SeqCst);
                 let calls = drain(&log);
                 // who received it: the collectors whose `event` / `new_span` ran for this emission
                 let want = if step["k"].as_str().unwrap_or("event") == "span" { "new_span" } else { "event" };
